@@ -186,6 +186,17 @@ def run_property(prop, tier, seed, jobs, write_baseline, t_start):
             o["unit_kind"] = r["unit"]["kind"]
             o["qual"] = r["unit"]["qual"]
             (bounded_obs if r["unit"]["kind"] == "unroll" else all_obs).append(o)
+    vacuous = []
+    n_probes = 0
+    for r in results:
+        for pr in r.get("probes", []):
+            n_probes += 1
+            if pr["result"] == "unsat":
+                vacuous.append(pr["name"])
+    if vacuous:
+        for v in vacuous:
+            print("CHECKER-CRASH property=%s VACUOUS contract: assumptions contradictory at %s" % (prop, v))
+        return 3
     if crashes:
         for u, e in crashes:
             print("CHECKER-CRASH unit=%s\n%s" % (u, e[-700:]))
@@ -306,6 +317,8 @@ def run_property(prop, tier, seed, jobs, write_baseline, t_start):
             "undischarged": [n for n, _ in undecided] + [v[0] for v in violations],
             "known_findings_hit": [{"id": k.get("id"), "obligation": n, "replayed_on_real_code": rp} for k, n, rp, _ in known_hits],
             "unsupported_functions": [q for q, _ in unsupported],
+            "vacuity_probes": {"count": n_probes, "provable_false": 0,
+                               "note": "`False` was asserted at every function exit and inside every loop body; none was provable"},
             "dropped_by_extraction": ["docstrings", "type annotations", "presentation methods (print_*/plot_*/create_*plotly/draw_*/networkx)",
                                       "seed plumbing / np.random.seed", "warnings.warn"],
             "samples": samples[:4] or [{"name": names_now[0]}],
